@@ -154,22 +154,23 @@ Definition skip_test (dsize : nat) (source dest : path) (f : fs) : bool :=
   || (exists_b f dest && (getsize dsize f source <=? getsize dsize f dest)).
 
 (* the handling of the first part and the loop over the middle parts are one loop over all
-   parts but the last *)
+   parts but the last (none for a dest of at most one part) *)
+Lemma make_ancestors_loop dest f :
+  make_ancestors dest f = mkdir_loop [] (removelast dest) f.
+Proof.
+  destruct dest as [|a [|b tl]]; reflexivity.
+Qed.
+
 Lemma copypath_run_unfold dsize source dest f :
   copypath_run dsize source dest f =
   if skip_test dsize source dest f then Ok f
-  else if length dest <=? 1 then Ok f
   else match mkdir_loop [] (removelast dest) f with
        | Raised f2 => Raised f2
        | Ok f2 => shutil_copy source dest f2
        end.
 Proof.
   unfold copypath_run. fold (skip_test dsize source dest f).
-  destruct (skip_test dsize source dest f); [reflexivity|].
-  destruct dest as [|a [|b tl]]; try reflexivity.
-  change (length (a :: b :: tl) <=? 1) with false. cbv iota.
-  change (removelast (a :: b :: tl)) with (a :: removelast (b :: tl)).
-  cbn [mkdir_loop app]. destruct (ensure_dir [a] f); reflexivity.
+  now rewrite make_ancestors_loop.
 Qed.
 
 Lemma proper_prefix_neq (p l : path) : proper_prefix p l -> p <> l.
@@ -262,7 +263,6 @@ Theorem copypath_changes : forall dsize source dest f p,
 Proof.
   intros dsize source dest f p. unfold copypath. rewrite copypath_run_unfold.
   destruct (skip_test dsize source dest f) eqn:T; [left; reflexivity|].
-  destruct (length dest <=? 1) eqn:L; [left; reflexivity|].
   pose proof (skip_test_false _ _ _ _ T) as ES.
   pose proof (ancestors_phase dest f p) as AP. cbv zeta in AP.
   pose proof (ancestors_phase_dest dest f) as AD.
@@ -417,21 +417,16 @@ Proof.
   rewrite (copypath_run_unfold dsize source dest f).
   destruct (skip_test dsize source dest f) eqn:T.
   { cbn [fs_of]. now rewrite copypath_run_unfold, T. }
-  destruct (length dest <=? 1) eqn:L.
-  { cbn [fs_of]. now rewrite copypath_run_unfold, T, L. }
   pose proof (skip_test_false _ _ _ _ T) as ES.
   pose proof (ancestors_phase_dest dest f) as AD.
   pose proof (ancestors_phase_source dest f source ES) as AS.
   pose proof (mkdir_loop_idem (removelast dest) [] f) as IDEM.
-  apply Nat.leb_gt in L.
-  assert (DN : dest <> []) by (intros ->; cbn in L; lia).
   destruct (mkdir_loop [] (removelast dest) f) as [f2|f2] eqn:M; cbn [fs_of] in *.
   - assert (T2 : skip_test dsize source dest f2 = false)
       by (now rewrite (skip_test_ext dsize source dest f f2 AS AD)).
-    assert (L2 : (length dest <=? 1) = false) by (apply Nat.leb_gt; exact L).
     destruct (shutil_copy_cases source dest f2) as [C | (data & LS & NE & DT & DP & C)];
     rewrite C; cbn [fs_of].
-    + now rewrite copypath_run_unfold, T2, L2, IDEM, C.
+    + now rewrite copypath_run_unfold, T2, IDEM, C.
     + set (t := copy_target f2 source dest) in *. set (g := upd f2 t (File data)).
       assert (GS : lookup g source = Some (File data)).
       { unfold g. rewrite lookup_upd_other by exact NE. exact LS. }
@@ -458,10 +453,11 @@ Proof.
           { unfold parent. rewrite Et, removelast_last. unfold is_dir_b. rewrite GD.
             exact DD. }
           now rewrite X1, X2. }
-        rewrite copypath_run_unfold, TG, L2, MG, CG. cbn [fs_of].
+        rewrite copypath_run_unfold, TG, MG, CG. cbn [fs_of].
         unfold g, upd. destruct (path_eqb p t); reflexivity.
       * (* dest is (now) a file as long as the source: the second call returns at once *)
         assert (Et : t = dest) by (unfold t, copy_target; now rewrite DD).
+        assert (DN : dest <> []) by (intros ->; discriminate DD).
         assert (GD : lookup g dest = Some (File data)).
         { unfold g. rewrite Et. now apply lookup_upd_same. }
         assert (TG : skip_test dsize source dest g = true).
@@ -470,21 +466,60 @@ Proof.
         now rewrite copypath_run_unfold, TG.
   - assert (T2 : skip_test dsize source dest f2 = false)
       by (now rewrite (skip_test_ext dsize source dest f f2 AS AD)).
-    assert (L2 : (length dest <=? 1) = false) by (apply Nat.leb_gt; exact L).
-    now rewrite copypath_run_unfold, T2, L2, IDEM.
+    now rewrite copypath_run_unfold, T2, IDEM.
 Qed.
 
-(** ** A destination of a single part is never written (FINDING): `Path(dest).parts` has
-    length 1 for "name" and for "./name", and then copypath does nothing at all, although
-    the source exists and the destination does not. *)
-Theorem copypath_single_part_dest_noop : forall dsize source part f,
-  copypath_run dsize source [part] f = Ok f.
+(** ** A destination of a single part ("name", "./name": `Path(dest).parts` has length 1).
+    Since the repair b5b5a4c the copy happens: no directory is made, and if the source is a
+    file, dest is missing or a shorter file, and dest is not the source itself, then dest
+    afterwards holds exactly the source's bytes. *)
+Theorem copypath_single_part_dest_copies : forall dsize source part f data,
+  lookup f source = Some (File data) ->
+  source <> [part] ->
+  (f [part] = None \/ exists d, f [part] = Some (File d) /\ length d < length data) ->
+  copypath_run dsize source [part] f = Ok (upd f [part] (File data)).
 Proof.
-  intros dsize source part f. unfold copypath_run.
+  intros dsize source part f data LS NE D.
+  assert (ND : is_dir_b f [part] = false).
+  { unfold is_dir_b. cbn [lookup]. destruct D as [-> | (d & -> & _)]; reflexivity. }
+  assert (T : skip_test dsize source [part] f = false).
+  { unfold skip_test, exists_b, getsize. rewrite LS. cbn [lookup negb orb].
+    destruct D as [-> | (d & -> & Hd)]; [reflexivity|]. cbn [node_size andb].
+    now apply Nat.leb_gt. }
+  rewrite copypath_run_unfold, T. cbn [removelast mkdir_loop].
+  unfold shutil_copy, copy_target. rewrite ND, LS, (path_eqb_neq _ _ NE), ND. reflexivity.
+Qed.
+
+(* The code before the repair did NOTHING for such a destination, although the source exists
+   and the destination does not (the defect found by this model, reproduced with
+   `rebuild ... -d .` on a single-file torrent). *)
+Theorem copypath_old_single_part_noop : forall dsize source part f,
+  copypath_run_old dsize source [part] f = Ok f.
+Proof.
+  intros dsize source part f. unfold copypath_run_old.
   destruct (negb (exists_b f source)
             || exists_b f [part] && (getsize dsize f source <=? getsize dsize f [part]));
   reflexivity.
 Qed.
+
+Theorem copypath_old_single_part_refuted :
+  exists dsize source part f data,
+    lookup f source = Some (File data) /\ source <> [part] /\ f [part] = None /\
+    fs_of (copypath_run_old dsize source [part] f) [part] = None /\
+    fs_of (copypath_run dsize source [part] f) [part] = Some (File data).
+Proof.
+  exists 4, ["c"; "a.bin"]%string, "a.bin"%string,
+         (fs_of_list [ (["c"]%string, Dir);
+                       (["c"; "a.bin"]%string, File ["a"; "b"; "c"]%char) ]),
+         ["a"; "b"; "c"]%char.
+  split; [reflexivity|]. split; [discriminate|]. split; [reflexivity|].
+  split; vm_compute; reflexivity.
+Qed.
+
+(* on destinations of two or more parts the repair changed nothing *)
+Theorem copypath_old_same_on_longer_dest : forall dsize source a b tl f,
+  copypath_run_old dsize source (a :: b :: tl) f = copypath_run dsize source (a :: b :: tl) f.
+Proof. reflexivity. Qed.
 
 (** * Examples *)
 Open Scope string_scope.
@@ -547,4 +582,7 @@ Print Assumptions copypath_source_untouched.
 Print Assumptions copypath_targets_under_dest_parent.
 Print Assumptions copypath_targets_under_dest_parent_partial.
 Print Assumptions copypath_idempotent.
-Print Assumptions copypath_single_part_dest_noop.
+Print Assumptions copypath_single_part_dest_copies.
+Print Assumptions copypath_old_single_part_noop.
+Print Assumptions copypath_old_single_part_refuted.
+Print Assumptions copypath_old_same_on_longer_dest.
